@@ -80,10 +80,6 @@ Definition py_neg (self : oexpr) : res oexpr := run arith_cbs t_Operator_neg sel
 Definition py_div : oexpr -> operand -> res oexpr := run arith_cbs t_Operator_truediv.
 Definition py_pow (self : oexpr) (n : Z) : res oexpr := run arith_cbs t_Operator_pow self (PInt n).
 
-(* the variant switch of the open finding about complex right scalars, read off the regenerated
-   Operator.__mul__ (does its shortcut test isinstance(other, Real)?) *)
-Definition real_shortcut_of_table : bool := tree_mentions_real t_Operator_mul.
-
 (* [build] with every overload taken from the regenerated trees *)
 Fixpoint build_tab (s : sexpr T) : res oexpr :=
   match s with
